@@ -365,7 +365,11 @@ def fill_query_params(query, params):
     def params_replace(node, **kwargs):
         if isinstance(node, ast.Parameter):
             value = params.pop(0)
-            return ast.Constant(value)
+            # the constant stands where the placeholder stood: it keeps the placeholder's alias and parentheses
+            constant = ast.Constant(value)
+            constant.alias = node.alias
+            constant.parentheses = node.parentheses
+            return constant
 
     # put parameters into query
     query_traversal(query, params_replace)
